@@ -131,6 +131,9 @@ U('dyn_lower_bound_bl', fam_dyn, 'Dyn_lower_bound_bl', ['C05', 'C17'], decls=['d
 U('dyn_find', fam_dyn, 'Dyn_find', ['C05', 'C16', 'C17'], inline=['Item_deleted', 'Dyn_level', 'Dyn_pgm', 'Dyn_has_pgm', 'Dyn_end'], stubs=['Dyn_lower_bound_bl'],
   assumed=['PGMType_search'], decls=['dyn_ghost', 'dyn_rank'], lemmas=['lemma_strict', 'lemma_absent', 'lemma_rank_item', 'lemma_pgm_built'],
   insts=DYN_Q, thorough_insts=DYN_ALL[:2], spec=('dyn.spec',), frame_ghost_only=True, assumptions=[DYN_NOTE, SEARCH_NOTE, 'at most 32 levels (the class allocates 32 - min_level level slots)'])
+U('dyn_count', fam_dyn, 'Dyn_count', ['C05', 'C16', 'C17'], inline=['Dyn_end'], stubs=['Dyn_find'], decls=['dyn_ghost', 'dyn_rank'],
+  insts=DYN_Q, thorough_insts=DYN_ALL[:2], spec=('dyn.spec',), frame_ghost_only=True,
+  assumptions=[DYN_NOTE, 'find() replaced by its contract (discharged in unit dyn_find); Iterator::operator== hand-rendered over the (level, position) form of the iterator, guarded verbatim', 'at most 32 levels; the level number of the entry found differs from the pseudo level number levels.size()-1 that end() carries (in the real class the two iterators point into different vectors and never compare equal; the (level, position) rendering cannot express that)'])
 U('dyn_ceil_log2', fam_dyn, 'Dyn_ceil_log2', ['C15', 'C17'], decls=['dyn_ghost'], insts=DYN_Q, spec=('dyn.spec',))
 U('dyn_max_size', fam_dyn, 'Dyn_max_size', ['C15', 'C17'], inline=['Dyn_ceil_log2'], decls=['dyn_ghost'], insts=DYN_Q, spec=('dyn.spec',))
 
